@@ -3,7 +3,7 @@
 import ast
 
 from .. import AnalysisError
-from ..astutil import src, call_name, dotted, walk_local, try_fold, ancestors, fold, NoFold
+from ..astutil import kwarg, src, call_name, dotted, walk_local, try_fold, ancestors, fold, NoFold
 from ..fn import FA
 from ..permtype import OrderAnalysis, fmt, ID, N, T
 from ..poly import poly_of, NotPoly, Poly
@@ -116,6 +116,23 @@ def check_cover(ctx, repo, rule):
         want = 'argmin' if val == 'x.min()' else 'argmax'
         ctx.check(rule, d is not None and call_name(d) == want and arr in src(d), f, st, '%s is stored at %s[%s] = %s.%s()' % (val, arr, idx, arr, want),
                   msg='the repair stores %s at %s[%s], which is not the %s of the same array' % (val, arr, idx, want), construct='repair index ' + src(st))
+    # the repairs write data values (x.min(), x.max()) into the breakpoint array: on the path where that array is the caller's own
+    # `bkpt=` argument it must first have become a floating array of the constructor's own (an integer array truncates the repair and the
+    # padding knots; the caller's array would be changed behind its back)
+    for n, st, arr, idx, val, strict in reps[:1]:
+        nm = st.targets[0].value
+        raw = [d for d, v in fa.defs(nm) if isinstance(d, ast.arg)]
+        conv = [v for d, v in fa.defs(nm) if v is not None and isinstance(v, ast.Call) and call_name(v) in ('array', 'asarray', 'astype', 'asfarray', 'copy')
+                and any(isinstance(x, ast.Name) and x.id == nm.id for x in ast.walk(v))]
+        okc = not raw and (nm.id not in f.params or bool(conv))
+        if conv:
+            okc = okc and all(call_name(v) != 'copy' and (floating_dtype(kwarg(v, 'dtype', 1 if call_name(v) != 'astype' else 0), fa)
+                                                            if kwarg(v, 'dtype', 1 if call_name(v) != 'astype' else 0) is not None else call_name(v) == 'asfarray')
+                              for v in conv)
+        ctx.check(rule, okc, f, st, 'explicit breakpoints are converted to a floating array of the constructor\'s own before the coverage repair writes into them',
+                  msg='bspline.__init__ writes the coverage repair `%s` into the caller\'s own `%s` array: integer breakpoints truncate the repair (and the padding '
+                      'knots), so the knot vector does not cover the data, and the caller\'s array is modified' % (src(st), nm.id),
+                  construct='repair written into the bkpt argument')
     # the padding (and the spacing) must read the repaired array
     ctx.need(len(arrs) == 1, 'bspline.__init__: the two repairs modify different arrays')
     B = arrs.pop()
@@ -299,6 +316,13 @@ def check_nbkpt(ctx, repo, rule):
                     if d is not None:
                         uses += [y for y in ast.walk(d) if isinstance(y, ast.Name) and y.id == 'nbkpts']
             if not uses:
+                # the count may enter through the positions picked out of the data (every-n placement)
+                for x in ast.walk(st.value):
+                    if isinstance(x, ast.Name) and x.id not in ('np', 'x'):
+                        for d, v in fa.defs(x):
+                            if v is not None:
+                                uses += [y for y in ast.walk(v) if isinstance(y, ast.Name) and y.id == 'nbkpts']
+            if not uses:
                 continue
             n += 1
             lows = []
@@ -319,6 +343,61 @@ def check_nbkpt(ctx, repo, rule):
                       msg='the number of breakpoints used to build `%s` can be %s: with fewer than two breakpoints the knot vector cannot cover the data range'
                           % (src(st.value)[:50], [l for l in lows if not (isinstance(l, int) and l >= 2)]), construct='breakpoint count lower bound %s' % lows)
     return n
+
+
+def check_requiren(ctx, repo, rule):
+    """The `requiren` bookkeeping of iterfit counts the positively weighted points of every breakpoint interval; an interval with
+    too few is dropped.  The counting loops walk a data index i: they must be able to visit the LAST data point (bound i < nx, tested
+    before xwork[i] is read).  With the bound i < nx - 1 the last point is never counted, the last interval (whose left breakpoint
+    is x.max()) always looks empty and its breakpoint is masked: the fitted curve is declared invalid at the last points."""
+    f = repo.func(BSPLINE, 'iterfit')
+    fa = FA(f)
+    blk = [n for n in walk_local(f.node) if isinstance(n, ast.If) and any(isinstance(x, ast.Name) and x.id == 'requiren' for x in ast.walk(n.test))
+           and any(isinstance(x, ast.While) for b in n.body for x in ast.walk(b))]
+    ctx.need(blk, 'iterfit: requiren block not found')
+    loops = [w for b in blk[0].body for w in ast.walk(b) if isinstance(w, ast.While)]
+    n = 0
+    for w in loops:
+        counts = any(isinstance(st, ast.AugAssign) and isinstance(st.target, ast.Name) and not (try_fold(st.value) == 1) for st in w.body)
+        incs = [st for st in w.body if isinstance(st, ast.AugAssign) and isinstance(st.target, ast.Name) and try_fold(st.value) == 1 and isinstance(st.op, ast.Add)]
+        if not incs or not counts:
+            continue
+        i = incs[0].target.id
+        conj = w.test.values if isinstance(w.test, ast.BoolOp) and isinstance(w.test.op, ast.And) else [w.test]
+        bounds = [c for c in conj if isinstance(c, ast.Compare) and len(c.ops) == 1 and isinstance(c.left, ast.Name) and c.left.id == i
+                  and isinstance(c.ops[0], (ast.Lt, ast.LtE)) and not any(isinstance(x, ast.Subscript) for x in ast.walk(c.comparators[0]))]
+        if not bounds:
+            continue
+        n += 1
+        b = bounds[0]
+        def size_atom(e, depth=0):
+            if isinstance(e, ast.Attribute) and e.attr == 'size':
+                return 'N'
+            if isinstance(e, ast.Call) and call_name(e) == 'len':
+                return 'N'
+            if isinstance(e, ast.Subscript) and isinstance(e.value, ast.Attribute) and e.value.attr == 'shape':
+                return 'N'
+            if isinstance(e, ast.Name) and depth < 2:
+                v = fa.resolve(e)
+                if v is not None:
+                    return size_atom(v, depth + 1)
+            return None
+        try:
+            lim = poly_of(b.comparators[0], atom=size_atom)
+            if isinstance(b.ops[0], ast.LtE):
+                lim = lim + Poly.const(1)
+            if lim.atoms() != {'N'}:
+                raise NotPoly(src(b))
+            full = lim == Poly.atom('N')
+        except NotPoly:
+            raise AnalysisError('C10: iterfit: the bound of the requiren counting loop (`%s`) is not an idiom this checker can judge' % src(b))
+        first = conj.index(b) < min([conj.index(c) for c in conj if any(isinstance(x, ast.Subscript) and isinstance(x.slice, ast.Name) and x.slice.id == i
+                                                                         for x in ast.walk(c))] or [len(conj)])
+        ctx.check(rule, full and first, f, w, 'the requiren counting loop can visit every data point (`%s`, tested before the data are indexed)' % src(b),
+                  msg='the loop that counts the good points of a breakpoint interval for `requiren` is bounded by `%s`%s: the last data point is never counted, so '
+                      'the last interval always looks empty, its breakpoint is masked and the curve is invalid at the last points (combine1fiber loses the inverse '
+                      'variance of its last pixels)' % (src(b), '' if full else ''), construct='requiren counting loop bound ' + src(b))
+    ctx.need(n >= 1, 'iterfit: requiren counting loop not found')
 
 
 # ------------------------------------------------------------------------------------------ C09
